@@ -87,10 +87,11 @@ func (p *BinaryProtocol) next(size int) ([]byte, error) {
 	}
 
 	l := len(p.Buf)
-	d := p.Read + size
-	if d > l {
+	// not `p.Read + size > l`: the sum wraps for sizes taken from the wire
+	if size > l-p.Read {
 		return nil, io.EOF
 	}
+	d := p.Read + size
 
 	ret := (p.Buf)[p.Read:d]
 	p.Read = d
